@@ -720,7 +720,10 @@ pub fn run_property(ctx: &Ctx, prop: &'static Property) -> i32 {
         "wall_s": (started.elapsed().as_secs_f64() * 1000.0).round() / 1000.0,
         "violations": violations.len(),
     });
-    let edir = ctx.verif_dir.join("evidence");
+    // mutant / sensitivity runs point this elsewhere so that committed evidence is not touched
+    let edir = std::env::var("VERIF_EVIDENCE_DIR")
+        .map(PathBuf::from)
+        .unwrap_or_else(|_| ctx.verif_dir.join("evidence"));
     let _ = std::fs::create_dir_all(&edir);
     let epath = edir.join(format!("{}.json", prop.id));
     if let Err(e) = std::fs::write(&epath, serde_json::to_string_pretty(&evidence).unwrap()) {
